@@ -83,6 +83,7 @@ func VerifH_C08_coverage_bytes() {
 			verifAssume(b-a <= 2)
 		}
 	}
+	verifUnwind(400) // with ranges of at most 3 glyphs no loop of a correct reader comes near this bound
 	t, err := Read(verifParser(in), 0)
 	if err == nil {
 		verifReach("accepted")
